@@ -25,9 +25,20 @@
     `C02_read_invokes`, `C02_write_invokes`, `C02_test_invokes`: a loop step invokes exactly one
     handler, of its own type, of the selected command; `C02_no_handler_elsewhere`: no other state
     of the command machine invokes a command handler.
+  * the phases composed (`Proofs/ResolveLine.lean`; `feed` drives the command machine from an input
+    queue, one `cat_service` call at a time, a byte being taken exactly in the reading states):
+    `C02_at_prefix` (IDLE, `AT` in either case → every enabled entry a candidate, type RUN),
+    `C02_name_phase` (any name, any table: after ≤ |name|·(commandsNum+1) calls the table reflects
+    the case-folded name — or the prefix at which an implicit-write command cut it short),
+    `C02_line_resolves` (name + LF: after ≤ (|name|+1)·(commandsNum+1) calls the parser is in
+    COMMAND_FOUND with exactly the entry `Spec.resolve` selects, type RUN, or has given up; or an
+    implicit-write command took the prefix and the request is WRITE), `C02_found_run_invokes`
+    (from there the next two calls invoke the run handler of that entry and no other, or answer
+    ERROR when it has none).
 -/
 import CatVerif.Proofs.Resolve
 import CatVerif.Proofs.Log
+import CatVerif.Proofs.ResolveLine
 namespace Cat
 open St
 
@@ -281,5 +292,89 @@ example :
     let L := fun typed j => Spec.matchName (names.getD j []) typed
     Spec.resolve (L [84, 69]) 3 = some 1 ∧ Spec.resolve (L [84]) 3 = none ∧
     Spec.resolve (L [43]) 3 = some 2 ∧ Spec.resolve (L [90]) 3 = none := by decide
+
+/-! ### the phases composed -/
+
+theorem C02_at_prefix (D : Desc) (tmpl : SvcIn) (s : St) (a t : Byte) (rest : List Byte)
+    (hs : s.state = .idle) (ha : toUpper a = 65) (ht : toUpper t = 84)
+    (hcap : D.commandsNum ≤ 4 * D.cmdCap) (hbuf : D.cmdCap ≤ s.buf.length) :
+    let s' := (feed D tmpl 2 s (a :: t :: rest)).1
+    (feed D tmpl 2 s (a :: t :: rest)).2 = rest ∧ s'.state = .parseCommandChar ∧ Lanes D s' [] ∧
+    s'.length = 0 ∧ s'.index = 0 ∧ s'.cmdType = .run ∧ s'.buf.length = s.buf.length :=
+  feed_at D tmpl s a t rest hs ha ht hcap hbuf
+
+theorem C02_name_phase (D : Desc) (tmpl : SvcIn) (s0 : St)
+    (hcap : D.commandsNum ≤ 4 * D.cmdCap) (hbuf : D.cmdCap ≤ s0.buf.length) (hnum : 0 < D.commandsNum)
+    (hst : s0.state = .parseCommandChar) (hl0 : Lanes D s0 []) (hlen : s0.length = 0) (hidx : s0.index = 0)
+    (hct : s0.cmdType = .run) (cs : List Byte) (hall : ∀ b ∈ cs, NameCh b) (rest : List Byte) :
+    ∃ (n : Nat) (p q : List Byte) (s' : St), n ≤ cs.length * (D.commandsNum + 1) ∧ cs = p ++ q ∧
+      feed D tmpl n s0 (cs ++ rest) = (s', q ++ rest) ∧ NameAt D s0 s' p ∧
+      ((q = [] ∧ s'.state = .parseCommandChar ∧ s'.cmdType = .run) ∨
+       (p ≠ [] ∧ s'.state = .searchCommand ∧ s'.cmdType = .write ∧ s'.partialCntr = 0 ∧ s'.cmd = none)) :=
+  feed_name D tmpl s0 hcap hbuf hnum hst hl0 hlen hidx hct cs hall rest
+
+/-- **Name resolution, end to end**: a name followed by LF, fed one call at a time from the state
+after `AT`, ends in COMMAND_FOUND with the entry `Spec.resolve` selects for the case-folded name
+(`C02_selected`: the first full match, else the only partial match) as a RUN request, or gives up
+when there is none; unless an implicit-write command equals a prefix `p` of the name — then the
+same holds for `p` as a WRITE request and the rest of the line is its argument text. -/
+theorem C02_line_resolves (D : Desc) (tmpl : SvcIn) (s0 : St)
+    (hcap : D.commandsNum ≤ 4 * D.cmdCap) (hbuf : D.cmdCap ≤ s0.buf.length) (hnum : 0 < D.commandsNum)
+    (hst : s0.state = .parseCommandChar) (hl0 : Lanes D s0 []) (hlen : s0.length = 0) (hidx : s0.index = 0)
+    (hct : s0.cmdType = .run)
+    (cs : List Byte) (hne : cs ≠ []) (hall : ∀ b ∈ cs, NameCh b) (rest : List Byte) :
+    ∃ (n : Nat) (p q : List Byte) (s' : St), n ≤ (cs.length + 1) * (D.commandsNum + 1) ∧ cs = p ++ q ∧ p ≠ [] ∧
+      ((q = [] ∧ feed D tmpl n s0 (cs ++ 10 :: rest) = (s', rest) ∧ s'.cmdType = .run) ∨
+       (feed D tmpl n s0 (cs ++ 10 :: rest) = (s', q ++ 10 :: rest) ∧ s'.cmdType = .write)) ∧
+      (∀ j, Spec.resolve (Spec.lane D (p.map toUpper)) D.commandsNum = some j →
+          s'.state = .commandFound ∧ s'.cmd = some j) ∧
+      (Spec.resolve (Spec.lane D (p.map toUpper)) D.commandsNum = none → NotFound s') :=
+  feed_line D tmpl s0 hcap hbuf hnum hst hl0 hlen hidx hct cs hne hall rest
+
+/-- from COMMAND_FOUND as a RUN request for entry `j`: the next call answers ERROR (entry `j` has no
+run handler) or enters the run loop, whose first call invokes the run handler of `j` and nothing else -/
+theorem C02_found_run_invokes (D : Desc) (s : St) (i i' : SvcIn) (j : Nat) (hs : s.state = .commandFound)
+    (ht : s.cmdType = .run) (hj : s.cmd = some j) :
+    let s1 := (commandService D s i).1
+    s1 = ackError D (s.chkUb s.cmd.isSome) ∨
+    (s1.state = .runLoop ∧
+      tr .cbC (commandService D s1 i').1.log = tr .cbC s1.log ++ [.handler .cmd .run j [] true 0 0 i'.hc.ret]) := by
+  have h := (C02_dispatch D s i hs).1 ht
+  rcases h with h | ⟨h1, h2⟩
+  · left; exact h
+  · right
+    refine ⟨h1, ?_⟩
+    have := C02_run_invokes D _ i' h1
+    rw [h2, hj] at this
+    exact this
+
+/-- **A whole line from IDLE**: `AT`, a name, LF. -/
+theorem C02_from_idle (D : Desc) (tmpl : SvcIn) (s : St) (a t : Byte)
+    (hs : s.state = .idle) (ha : toUpper a = 65) (ht : toUpper t = 84)
+    (hcap : D.commandsNum ≤ 4 * D.cmdCap) (hbuf : D.cmdCap ≤ s.buf.length) (hnum : 0 < D.commandsNum)
+    (cs : List Byte) (hne : cs ≠ []) (hall : ∀ b ∈ cs, NameCh b) (rest : List Byte) :
+    ∃ (n : Nat) (p q : List Byte) (s' : St), n ≤ 2 + (cs.length + 1) * (D.commandsNum + 1) ∧ cs = p ++ q ∧ p ≠ [] ∧
+      ((q = [] ∧ feed D tmpl n s (a :: t :: (cs ++ 10 :: rest)) = (s', rest) ∧ s'.cmdType = .run) ∨
+       (feed D tmpl n s (a :: t :: (cs ++ 10 :: rest)) = (s', q ++ 10 :: rest) ∧ s'.cmdType = .write)) ∧
+      (∀ j, Spec.resolve (Spec.lane D (p.map toUpper)) D.commandsNum = some j →
+          s'.state = .commandFound ∧ s'.cmd = some j) ∧
+      (Spec.resolve (Spec.lane D (p.map toUpper)) D.commandsNum = none → NotFound s') := by
+  have ⟨a0, a1, a2, a3, a4, a5, a6⟩ := feed_at D tmpl s a t (cs ++ 10 :: rest) hs ha ht hcap hbuf
+  generalize hf : feed D tmpl 2 s (a :: t :: (cs ++ 10 :: rest)) = r at a0 a1 a2 a3 a4 a5 a6
+  obtain ⟨s0, bs0⟩ := r
+  simp only at a0 a1 a2 a3 a4 a5 a6
+  subst a0
+  obtain ⟨n, p, q, s', hn, hpq, hp, hcase, hres, hnone⟩ :=
+    feed_line D tmpl s0 hcap (by rw [a6]; exact hbuf) hnum a1 a2 a3 a4 a5 cs hne hall rest
+  refine ⟨2 + n, p, q, s', by omega, hpq, hp, ?_, hres, hnone⟩
+  rw [feed_add, hf]
+  exact hcase
+
+/-- non-vacuity: the initial state is IDLE with a command buffer of the declared size -/
+example (D : Desc) (m : List (List Byte)) : (init D (List.replicate D.cmdCap 0) [] m).state = .idle ∧
+    D.cmdCap ≤ (init D (List.replicate D.cmdCap 0) [] m).buf.length := by simp [init]
+
+/-- non-vacuity: `A`..`Z`, digits and `+` are name characters -/
+example : NameCh 65 ∧ NameCh 122 ∧ NameCh 43 ∧ NameCh 48 := by unfold NameCh; decide
 
 end Cat
